@@ -25,4 +25,12 @@ ASSUME Strs({"a", "b"}, 2) = {<<>>, <<"a">>, <<"b">>, <<"a", "a">>, <<"a", "b">>
 VARIABLE x
 Init == x = 0
 Next == x' = x
-=============================================================================
+=========================================================================(* arithmetic that would leave the 32-bit range yields NaR, which propagates and is never equal to a recorded value *)
+ASSUME RMul(<<1, 65536>>, <<1, 65536>>) = NaR
+ASSUME RMul(<<3, 65536>>, <<65536, 5>>) = <<3, 5>>
+ASSUME RAdd(<<2147483647, 1>>, <<1, 1>>) = NaR
+ASSUME RAdd(<<1, 1073741824>>, <<1, 3>>) = NaR
+ASSUME RAdd(NaR, <<1, 3>>) = NaR /\ RMul(<<0, 1>>, <<1, 3>>) = <<0, 1>> /\ RMul(NaR, <<1, 3>>) = NaR /\ RInv(NaR) = NaR
+ASSUME ~REq(NaR, <<1, 2>>) /\ ~REq(NaR, <<349525, 1048576, 0>>)
+ASSUME RLeq(<<1, 1073741824>>, <<1, 3>>)            \* the cross product fits: 3 <= 2^30
+====
